@@ -973,6 +973,33 @@ func monStranded(f *Facts, final *Dump, prop string) []Violation {
 	if prop == "C16" && !f.HasReload {
 		return nil
 	}
+	if prop == "C03" {
+		// "no accepted job is lost": a job that is no longer reported must have been reported finished before it went
+		// (retention removes finished jobs; jobs of a pipeline that is no longer defined are purged)
+		for _, idx := range f.JobOrder {
+			jf := f.Jobs[idx]
+			if jf.AcceptEv < 0 || final.Job(idx) != nil {
+				continue
+			}
+			var last *DJob
+			var lastDump *Dump
+			for _, di := range f.Dumps {
+				if d := f.Log[di].Dump; d != nil {
+					if j := d.Job(idx); j != nil {
+						last, lastDump = j, d
+					}
+				}
+			}
+			if last == nil || last.Terminal() || lastDump.Defs == nil {
+				continue
+			}
+			if _, ok := lastDump.Defs.Pipelines[last.Pipeline]; !ok {
+				continue
+			}
+			vs = append(vs, Violation{Property: prop, Rule: "lost", Norm: "accepted-job-disappears-unfinished",
+				Msg: fmt.Sprintf("job %d was accepted and is no longer reported, but when it was last reported it was unfinished (%s); now: %s", idx, jobStr(last), final.Short())})
+		}
+	}
 	for k := range final.Jobs {
 		j := &final.Jobs[k]
 		if _, ok := final.Defs.Pipelines[j.Pipeline]; !ok {
